@@ -446,6 +446,8 @@ def _known_names():
         names.update(re.findall(r"[\"']([A-Za-z_][A-Za-z0-9_]*)[\"']", txt))
     # reference lists name functions as file:function
     for p in glob.glob(os.path.join(here, "rules", "ref", "*.tsv")):
+        if os.path.basename(p) == "local_names.tsv":
+            continue        # lists every function (names of their locals); naming a function there means nothing
         try:
             txt = open(p).read()
         except OSError:
@@ -1185,6 +1187,36 @@ class Program:
         return must
 
 
+RENAME_LOCALS = _os.environ.get("VERIF_RENAME_LOCALS") is not None
+LOCALNAMES = _os.environ.get("VERIF_NO_LOCALNAMES") is None
+from . import localnames
+
+
+def _rename_locals(raw):
+    """self-test aid (VERIF_RENAME_LOCALS=1): every local variable and parameter of the function gets another name,
+    exactly what a source-level rename would give the extractor.  Rules must not care."""
+    if raw.get("_rn"):
+        return
+    raw["_rn"] = True
+
+    def ren(x):
+        if isinstance(x, dict):
+            if x.get("k") == "v" and x.get("s") in ("l", "p") and isinstance(x.get("n"), str):
+                x["n"] = "zq_" + x["n"]
+            for v in x.values():
+                ren(v)
+        elif isinstance(x, list):
+            for v in x:
+                ren(v)
+    for b in raw.get("blocks", []):
+        ren(b.get("ev", []))
+        if b.get("t"):
+            ren(b["t"])
+    for p_ in raw.get("params", []) + raw.get("locals", []):
+        if isinstance(p_.get("n"), str):
+            p_["n"] = "zq_" + p_["n"]
+
+
 class World:
     """all extracted units"""
 
@@ -1208,6 +1240,10 @@ class World:
             for raw in d["functions"]:
                 if raw.get("nocfg"):
                     continue
+                if RENAME_LOCALS:
+                    _rename_locals(raw)
+                if LOCALNAMES:
+                    localnames.apply(raw)
                 fl.append(Fn(raw, u.uid))
             self.unit_fns_plain[u.uid] = fl
             if INLINE_HELPERS:
